@@ -161,6 +161,20 @@ def rrsetSuppresses (lower : String → String) (rs : List Rec) (r : Rec) : Bool
   | none => false
   | some o => Gen.Dns.rrset_suppresses_ttl r.ttl o.ttl
 
+/-- `DNSRecord.suppressed_by(msg)` (`_dns.py:177-184`): **some** answer of the message is the same record with more than
+half of this record's TTL (`for record in answers: if self._suppressed_by_answer(record): return True`) -/
+def Rec.suppressedBy (lower : String → String) (a : Rec) (answers : List Rec) : Bool :=
+  answers.any (fun o => a.suppressedByAnswer lower o)
+
+/-- Duplicate removal in a reply (`_handlers/answers.py: _add_answers_additionals`): `sending = set(answers)`; an
+additional record goes out only if it is not (by identity) in `sending`, and is then added to it.  `adds` is the set of
+additionals in whatever order the `set` is iterated; the result is the additional section. -/
+def replyAdditionals (lower : String → String) (answers adds : List Rec) : List Rec :=
+  adds.foldl (fun sent x => if (answers ++ sent).any (fun o => o.beq lower x) then sent else sent ++ [x]) []
+
+/-- ASCII upper-casing (only used to state that `asciiLower` identifies ASCII case variants) -/
+def asciiUpper (s : String) : String := s.map Char.toUpper
+
 /-! ### wire/line serialisation of records (driver protocol) -/
 
 def Rec.parse : Tok Rec := do
